@@ -895,7 +895,7 @@ static inline const VertexIndex *bg_vec_u__index_c(const bg_vec_u *v, bg_size i)
 static inline void bg_vec_b__ctor_2(bg_vec_b *v, bg_size n, const bg_bool *x) {
   v->n = n; v->vP = v->vQ = *x;
   __CPROVER_assert(!*x, "ABSTRACTION vector<bool> is created all-false");
-  v->nTrue = 0; v->restTrue = 0;
+  v->nTrue = 0; v->restTrue = 0; v->lastValid = 0; v->lastI = 0; v->lastB = 0;
 }
 static inline bg_bitref bg_vec_b__index(bg_vec_b *v, bg_size i) {
   BG_PRE(i < v->n, "vector<bool>::operator[] index out of range");
@@ -903,12 +903,14 @@ static inline bg_bitref bg_vec_b__index(bg_vec_b *v, bg_size i) {
   return r;
 }
 /* reading an unobserved bit: unknown, but consistent with the count of true bits */
-static inline bg_bool bg_bitref__tobool(const bg_bitref *r) {
+static inline bg_bool bg_bitref__tobool(const bg_bitref *r) { /* r->v is not const: ghost bookkeeping */
   if (r->i == G_P) return r->v->vP;
   if (r->i == G_Q) return r->v->vQ;
+  if (r->v->lastValid && r->v->lastI == r->i) return r->v->lastB;
   bg_bool b = nondet_bg_bool();
   BG_ASSUME(!b || r->v->restTrue > 0);
-  /* fewer true bits than other positions means some of them are false */
+  BG_ASSUME(b || r->v->restTrue + BG_VECB_OBS(*r->v) < r->v->n); /* a false bit leaves room */
+  r->v->lastValid = 1; r->v->lastI = r->i; r->v->lastB = b;       /* (ghost write: reads stay consistent) */
   return b;
 }
 /* writing: the library only ever sets a bit it has just read as false, or re-sets a true one; the ghost
@@ -919,11 +921,16 @@ static inline void bg_bitref__assign(bg_bitref *r, bg_bool x) {
   else if (r->i == G_Q) { if (x && !v->vQ) v->nTrue++; if (!x && v->vQ) v->nTrue--; v->vQ = x; }
   else {
     /* an unobserved bit: was it set before?  unknown -> both outcomes */
-    bg_bool was = nondet_bg_bool();
-    BG_ASSUME(!was || v->restTrue > 0);
-    BG_ASSUME(was || v->restTrue < v->n);
+    bg_bool was;
+    if (v->lastValid && v->lastI == r->i) was = v->lastB;
+    else {
+      was = nondet_bg_bool();
+      BG_ASSUME(!was || v->restTrue > 0);
+      BG_ASSUME(was || v->restTrue + BG_VECB_OBS(*v) < v->n);
+    }
     if (x && !was) { v->restTrue++; v->nTrue++; }
     if (!x && was) { v->restTrue--; v->nTrue--; }
+    v->lastValid = 1; v->lastI = r->i; v->lastB = x;
   }
 }
 static inline void bg_queue_u__ctor(bg_queue_u *q) {
@@ -932,7 +939,7 @@ static inline void bg_queue_u__ctor(bg_queue_u *q) {
 }
 static inline void bg_queue_u__push(bg_queue_u *q, const VertexIndex *xp) {
   VertexIndex x = *xp;
-  BG_ASSUME(BG_QUEUE_LEN(*q) < BG_CAP && q->pushed < BG_CAP);
+  BG_ASSUME(BG_QUEUE_LEN(*q) + 1 < BG_CAP && q->pushed + 1 < BG_CAP);
   if (BG_IS_P(x)) { q->nP++; q->pushedP++; }
   else if (BG_IS_Q(x)) { q->nQ++; q->pushedQ++; }
   else q->nO++;
